@@ -153,6 +153,18 @@ theorem C03_snapshot_on_returning_client (w : WorldSnap.World) (hw : WorldSnap.W
     (∀ e ∈ WorldSnap.allEnts w, ∀ p, e.parent = some p → WorldSnap.getParent c e.uuid = some p) :=
   WorldSnap.snapshot_on_returning w hw c0
 
+/-- **live traffic ahead of the snapshot, whole world.** Whatever the joiner has handled before its snapshot arrives — any list
+of spawns, components and parent pairs, relayed or broadcast, known uuids or not — it ends knowing every uuid of the host and
+holding every value and link the host lists (the snapshot comes last on the ordered channel and overrides); what that traffic
+created beyond the host's world stays, which is the returning client's D16 again -/
+theorem C03_live_traffic_before_snapshot (w : WorldSnap.World) (hw : WorldSnap.WF w) (live : List WorldSnap.Msg) :
+    let c := WorldSnap.applyAll (WorldSnap.applyAll {} live) (WorldSnap.snapshot w)
+    (∀ u ∈ WorldSnap.uuids w, u ∈ c.ents) ∧
+    (∀ e ∈ WorldSnap.allEnts w, ∀ t v, e.vals.lookup t = some v → WorldSnap.getComp c e.uuid t = some v) ∧
+    (∀ e ∈ WorldSnap.allEnts w, ∀ p, e.parent = some p → WorldSnap.getParent c e.uuid = some p) :=
+  let h := WorldSnap.snapshot_on_returning w hw (WorldSnap.applyAll {} live)
+  ⟨fun u hu => (h.1 u).mpr (Or.inr hu), h.2.1, h.2.2⟩
+
 /-- **D16 on the whole-world model**: entity 99 was despawned on the host while the client was away; after the snapshot the
 returning client still knows it (and entity 11 keeps the link the host dropped) -/
 example :
